@@ -43,6 +43,8 @@ class Vtx(tuple):
     __slots__ = ()
 
 
+TIE_SCALE = 5   # once the tie is broken the failing-input search runs at this multiple of the budget (default 10; this check is slow)
+
 def dist2(p, a, b):
     """exact squared distance from p to segment ab: clamp the projection parameter (not the code's region split)"""
     dx, dy = b[0] - a[0], b[1] - a[1]
